@@ -185,7 +185,21 @@ pub fn run(cfg: &Cfg) {
         let (ida, idb) = (keyid_hex(a.public()), keyid_hex(b.public()));
         let mut ka = j["keys"][&ida].clone();
         let mut kb = j["keys"][&idb].clone();
-        let wrong = hex(&r.bytes(32));
+        let mut wrong = hex(&r.bytes(32));
+        // ids of the *same material* under another description (no hash-algorithm list, a shorter
+        // list, another scheme name): related to the key, but not its id. Computed by the model.
+        if r.chance(1, 2) {
+            let algs = match r.below(3) {
+                0 => "~".to_string(),
+                1 => hexs("sha256"),
+                _ => format!("{},{}", hexs("sha512"), hexs("sha256")),
+            };
+            let scheme = if r.chance(1, 4) { hexs("rsassa-pss-sha512") } else { hexs(&scheme_name(a.public().scheme())) };
+            let rel = model.ask(&format!("keyid {} {} {} {}", type_name(a.public().typ()), scheme, algs, hex(a.public().as_bytes())));
+            if rel.len() == 64 && rel != ida {
+                wrong = rel;
+            }
+        }
         // the optional `keyid` member inside a key description: as written, absent, another key's id,
         // an unrelated id - it never decides what the key's id is
         for (k, other) in [(&mut ka, &idb), (&mut kb, &ida)] {
@@ -233,6 +247,39 @@ pub fn run(cfg: &Cfg) {
                 let ok = parsed.keys.iter().all(|(id, k)| id == k.key_id() && Some(serde_json::to_value(id).unwrap().as_str().unwrap().to_string()) == intrinsic(k));
                 sink.oracle(ok, "a parsed layout's key table maps an id to a key with another intrinsic id", &format!("layout {}", hex(text.as_bytes())));
                 sink.stat(&format!("keytable/kept-{}", parsed.keys.len()));
+            }
+        }
+    }
+    // ---- a signature labelled with a related id (same material, other description) is not a signature
+    //      of the key: it must neither be accepted alone nor count next to the properly labelled one
+    for _ in 0..(if cfg.thorough { 400 } else { 40 }) {
+        let a = r.pick(&pool);
+        let link = crate::meta::gen_link(&mut r, None);
+        let mb = match in_toto::models::Metablock::new(in_toto::models::MetadataWrapper::Link(link), &[&a.key]) {
+            Ok(m) => m,
+            Err(_) => continue,
+        };
+        let algs = if r.chance(1, 2) { "~".to_string() } else { hexs("sha256") };
+        let rel = model.ask(&format!("keyid {} {} {} {}", type_name(a.public().typ()), hexs(&scheme_name(a.public().scheme())), algs, hex(a.public().as_bytes())));
+        if rel.len() != 64 || rel == keyid_hex(a.public()) {
+            continue;
+        }
+        let mut j = serde_json::to_value(&mb).unwrap();
+        let sig0 = j["signatures"][0].clone();
+        let mut relabelled = sig0.clone();
+        relabelled["keyid"] = Value::String(rel.clone());
+        for (sigs, t, what) in [
+            (vec![relabelled.clone()], 1u32, "a signature labelled with a related id (same key material, other description) was accepted"),
+            (vec![sig0.clone(), relabelled.clone()], 2u32, "one key's signature counted twice: under its id and under a related id"),
+            (vec![relabelled.clone(), sig0.clone()], 2u32, "one key's signature counted twice: under its id and under a related id"),
+        ] {
+            j["signatures"] = Value::Array(sigs);
+            let replay = format!("block {}", hex(j.to_string().as_bytes()));
+            if let Ok(parsed) = serde_json::from_value::<in_toto::models::Metablock>(j.clone()) {
+                let keys = vec![a.public().clone()];
+                let res = crate::proto::guarded(move || parsed.verify(t, keys.iter()).is_ok());
+                sink.oracle(res != Ok(true), what, &replay);
+                sink.stat(&format!("related-label/{}", match res { Ok(true) => "ACCEPTED", Ok(false) => "rejected", Err(()) => "panic" }));
             }
         }
     }
